@@ -371,6 +371,7 @@ struct Member {
   Token *name;
   int idx;
   int align;
+  bool has_alignas; // _Alignas was given: it holds in a packed struct too
   int offset;
 
   // Bitfield
